@@ -71,6 +71,9 @@ class SimUdpSocket(object):
         self.host = host
         if port:
             self.port = port
+            # (SO_REUSEADDR semantics for unicast UDP: the socket bound last receives; when it goes, the one it shadowed
+            # receives again)
+            self._shadowed = NET.bound.get((self.host, self.port))
             NET.bound[(self.host, self.port)] = self
         else:
             self._ensure_port()
@@ -112,6 +115,9 @@ class SimUdpSocket(object):
         self.closed = True
         if self.port is not None and NET.bound.get((self.host, self.port)) is self:
             del NET.bound[(self.host, self.port)]
+            shadowed = getattr(self, '_shadowed', None)
+            if shadowed is not None and not shadowed.closed:
+                NET.bound[(self.host, self.port)] = shadowed
 
     def fileno(self):
         return -1 if self.closed else 2000 + id(self) % 1000
